@@ -263,6 +263,41 @@ func (h *histRunner) recoverAppNonce(sd *simDev) (string, uint32) {
 	return hx(out[1:4]), dev.DevAddr.ToUint32()
 }
 
+// the server process is replaced: a fresh server opens the same database file (the output buffer is gone)
+func (h *histRunner) restartServer() {
+	h.w.restart()
+	for _, a := range h.apps {
+		h.w.watchApp(a)
+	}
+	h.events = append(h.events, "Z")
+	h.obs = append(h.obs, "Z "+h.dumpAll())
+	h.tags["restart"]++
+}
+
+// many joins of one device, then the early nonces again (oldest first), with a restart somewhere
+func (h *histRunner) joinMarathon(d *simDev) {
+	n := 17 + h.rng.Intn(12)
+	base := uint16(h.rng.Intn(60000))
+	restartAt := h.rng.Intn(n + 4)
+	for i := 0; i < n; i++ {
+		if i == restartAt {
+			h.restartServer()
+		}
+		nonce := base + uint16(i)
+		d.lastNonce = nonce
+		d.usedNonces = append(d.usedNonces, nonce)
+		h.rx(refJoinRequest(d.appkey, d.appeui, d.eui, nonce), "join.marathon")
+	}
+	for i := 0; i < 3; i++ {
+		if n+i == restartAt {
+			h.restartServer()
+		}
+		nonce := base + uint16(i)
+		d.lastNonce = nonce
+		h.rx(refJoinRequest(d.appkey, d.appeui, d.eui, nonce), "join.marathon-replay")
+	}
+}
+
 func (h *histRunner) submit(d *simDev, port uint8, ack bool, data []byte) {
 	d.nextCreated += 10
 	m := model.DownstreamMessage{DeviceEUI: d.eui, Data: hx(data), Port: port, Ack: ack, CreatedTime: d.nextCreated}
@@ -391,9 +426,20 @@ func runHistory(rng *rand.Rand, prof histProfile, w *Writer, suite string) {
 	}
 	h.events = append(h.events, "I")
 	h.obs = append(h.obs, "I "+h.dumpAll())
+	if prof.name == "C05" && rng.Intn(8) == 0 {
+		for _, d := range h.devs {
+			if d.otaa && d.registered {
+				h.joinMarathon(d)
+				break
+			}
+		}
+	}
 	nev := prof.minEv + rng.Intn(prof.maxEv-prof.minEv+1)
 	total := prof.wUplink + prof.wCorrupt + prof.wJoin + prof.wSubmit + prof.wReplay + prof.wCrash
 	for e := 0; e < nev; e++ {
+		if rng.Intn(40) == 0 {
+			h.restartServer()
+		}
 		di := rng.Intn(len(h.devs))
 		d := h.devs[di]
 		r := rng.Intn(total)
